@@ -40,15 +40,19 @@ Definition g_call (s : sx) : scall :=
   if op =? "num" then CNum
   else if op =? "get" then CGet (gI (nthx 1 l))
   else if op =? "iter" then CIter (gI (nthx 1 l))
+  else if op =? "next" then CNext (gI (nthx 1 l))
   else CByName (gB (nthx 1 l)).
 Definition g_op (s : sx) : symop :=
-  match g_call s with CNum => OpNum | CGet n => OpGet n | CIter k => OpIter k | CByName q => OpByName q end.
+  match g_call s with
+  | CNum => OpNum | CGet n => OpGet n | CIter k => OpIter k | CByName q => OpByName q | CNext g => OpNext g
+  end.
 Definition sx_obs (o : symobs) : sx :=
   match o with
   | ObsNum z => sx_ok (SI z)
   | ObsSym r => sx_res sx_view r
   | ObsSyms r => sx_res sx_views r
   | ObsByName r => sx_res sx_optviews r
+  | ObsStop => SS "stop"
   end.
 Definition sx_answer (a : sanswer) : sx :=
   match a with
@@ -56,6 +60,7 @@ Definition sx_answer (a : sanswer) : sx :=
   | ASym v => sx_ok (sx_view v)
   | ASyms l => sx_ok (sx_views l)
   | AByName o => sx_ok (sx_optviews o)
+  | AStop => SS "stop"
   end.
 
 Definition present_from (names : list (list Z)) (lo : Z) (q : list Z) : bool :=
@@ -95,10 +100,12 @@ Definition dispatch (req : sx) : sx :=
     sx_list (fun q => sx_bool (present_from names (gI a3) q)) (g_names a4)
   else if op =? "spec_hist" then            (* strtab rows calls -> (all-calls-ok answers) *)
     let calls := map g_call (gL a3) in
-    SL [sx_bool (forallb (call_ok (g_rows a2)) calls); sx_list (fun cl => sx_answer (answer (gB a1) (g_rows a2) cl)) calls]
+    SL [sx_bool (forallb (call_ok (g_rows a2)) calls); sx_list sx_answer (answers (gB a1) (g_rows a2) [] calls)]
   (* ---- model *)
-  else if op =? "m_hist" then               (* img cfg calls: one fresh object driven through the history *)
-    sx_list sx_obs (snd (sym_run (gB a1) (g_cfg a2) None (map g_op (gL a3))))
+  else if op =? "m_hist" then               (* img cfg calls cursors: one fresh object driven through the history;
+                                               cursors = stream.tell() observed before each call *)
+    let curs := gints a4 in
+    sx_list sx_obs (snd (sym_run (gB a1) (g_cfg a2) (fun t => nth (Z.to_nat t) curs 0%Z) 0%Z (None, []) (map g_op (gL a3))))
   else if op =? "m_hashes" then
     (* hand models, the pre-repair function, and the functions translated from the live source *)
     sx_list (fun n => SL [SI (elf_hash n); SI (gnu_hash_m n); SI (elf_hash_unrepaired n);
